@@ -382,6 +382,15 @@ impl BigInt
             return Err(());
         }
 
+        if (left - right) as u64 >= BIGINT_MAX_BITS
+        {
+            report.error_span(
+                "value is out of supported range",
+                span);
+            
+            return Err(());
+        }
+
         Ok(self.slice(left, right))
     }
     
